@@ -35,12 +35,19 @@ Record st_obs := mkTO { to_status : N; to_csrf : option str; to_state : option s
 
 Inductive hobs := HTick | HCb (o : cb_obs) | HSi (o : si_obs).
 
+(* browser histories: what the emulated cookie jar sent, and every Set-Cookie header for the
+   CSRF cookie as (value, already expired) in header order *)
+Record bst_obs := mkBSO { bs_status : N; bs_set : list set_cookie; bs_state : option str }.
+Record bcb_obs := mkBCO { bc_sent : option str; bc_set : list set_cookie; bc_obs : cb_obs }.
+Inductive bobs := BoTick | BoStart (o : bst_obs) | BoCb (o : bcb_obs) | BoSi (sent : option session) (o : si_obs).
+
 Inductive case :=
 | CSignIn (tab : list (str * str)) (cfg : config) (p : pkind) (rq : si_request) (c : cookie)
           (rr : refresh_reply) (vr : validate_reply) (o : si_obs)
 | CCallback (tab : list (str * str)) (cfg : config) (rq : cb_request) (rd : redeem_reply) (o : cb_obs)
 | CStart (rq : start_request) (o : st_obs)
-| CHist (tab : list (str * str)) (cfg : config) (steps : list (event * hobs)).
+| CHist (tab : list (str * str)) (cfg : config) (steps : list (event * hobs))
+| CBrowser (tab : list (str * str)) (cfg : config) (steps : list (bevent * bobs)).
 
 (* ---- comparison on projected observables ---- *)
 (* a deadline written by the code during the request (now + d, truncated to the second) may
@@ -207,6 +214,54 @@ Fixpoint hist_judge (cfg : config) (w : world) (oi : list session) (steps : list
       (a && a', h && h')
   end.
 
+(* ---- browser histories ----
+   The monitor keeps its own jar for the CSRF cookie, computed from the OBSERVED Set-Cookie
+   headers only: the value the browser holds and whether that value was delivered by a /start
+   response. The clause: a callback response that sets a session cookie must carry a state whose
+   nonce equals the value of a CSRF cookie this browser received from a /start response and
+   that has not been removed or replaced since; and the cookie is gone afterwards. *)
+Definition sc_eqb (a b : set_cookie) : bool :=
+  str_eqb (sc_value a) (sc_value b) && bool_eqb (sc_expired a) (sc_expired b).
+
+Definition mjar_apply (from_start : bool) (j : option (str * bool)) (sc : set_cookie) : option (str * bool) :=
+  if sc_expired sc then None else Some (sc_value sc, from_start).
+Definition mjar_value (j : option (str * bool)) : option str := option_map fst j.
+Definition mjar_from_start (j : option (str * bool)) : bool :=
+  match j with Some (_, b) => b | None => false end.
+
+Fixpoint bhist_judge (cfg : config) (w : bworld) (mj : option (str * bool)) (os : option session)
+    (steps : list (bevent * bobs)) : bool * bool :=
+  match steps with
+  | [] => (true, true)
+  | (e, bo) :: rest =>
+      let '(a, h, mj', os') :=
+        match e, bo with
+        | BvTick _, BoTick => (true, true, mj, os)
+        | BvStart nonce rq, BoStart o =>
+            let m := oauth_start nonce rq in
+            (N.eqb (sr_status m) (bs_status o) && list_eqb sc_eqb (start_set_cookies m) (bs_set o) &&
+             option_eqb str_eqb (sr_state m) (bs_state o),
+             st_holds rq (mkTO (bs_status o) (jar_apply_all None (bs_set o)) (bs_state o)),
+             fold_left (mjar_apply true) (bs_set o) mj, os)
+        | BvCallback rq rd, BoCb o =>
+            let m := oauth_callback lower cfg (bw_now w) (with_csrf rq (bw_csrf w)) rd in
+            let mj2 := fold_left (mjar_apply false) (bc_set o) mj in
+            (cb_agree (cb_obs_of m) (bc_obs o) && list_eqb sc_eqb (callback_set_cookies m) (bc_set o) &&
+             option_eqb str_eqb (bw_csrf w) (bc_sent o) && option_eqb str_eqb (mjar_value mj) (bc_sent o),
+             cb_holds cfg (bw_now w) (with_csrf rq (mjar_value mj)) rd (bc_obs o) &&
+             (if is_some (co_saved (bc_obs o)) then mjar_from_start mj && negb (is_some mj2) else true),
+             mj2, match co_saved (bc_obs o) with Some s => Some s | None => os end)
+        | BvSignIn p rq rr vr, BoSi sent o =>
+            (si_agree (si_obs_of (sign_in_route lower cfg p (bw_now w) rq (jar_cookie (bw_sess w)) rr vr)) o &&
+             opt_close sess_close (bw_sess w) sent && opt_close sess_close os sent,
+             si_holds cfg p (bw_now w) rq (jar_cookie os) rr vr o,
+             mj, fold_left sess_jar_apply (so_ops o) os)
+        | _, _ => (false, true, mj, os)
+        end in
+      let '(a', h') := bhist_judge cfg (bstep lower cfg w e) mj' os' rest in
+      (a && a', h && h')
+  end.
+
 End Spec.
 
 Definition judge (c : case) : N :=
@@ -229,6 +284,10 @@ Definition judge (c : case) : N :=
       let lower := lower_tab tab in
       let '(a, h) := hist_judge lower cfg (world0 0) [] steps in
       code (negb a) (negb (rule_guard lower cfg) || h) 0
+  | CBrowser tab cfg steps =>
+      let lower := lower_tab tab in
+      let '(a, h) := bhist_judge lower cfg (bworld0 0) None None steps in
+      code (negb a) (negb (rule_guard lower cfg) || h) 0
   end.
 
 (* classes for the evidence histogram: which branch of the flow the case reached *)
@@ -248,4 +307,6 @@ Definition classify (c : case) : N :=
   | CCallback _ _ _ _ o => (1000 + co_status o)%N
   | CStart _ o => (2000 + to_status o)%N
   | CHist _ _ steps => (3000 + N.of_nat (length steps))%N
+  | CBrowser _ _ steps =>
+      (4000 + N.of_nat (length (filter (fun x => match snd x with BoCb o => is_some (co_saved (bc_obs o)) | _ => false end) steps)))%N
   end.
